@@ -417,3 +417,54 @@ def follow_flag(body, tb, depth=0):
         if str(val) == str(v):
             nxt = x
     return follow_flag(body, nxt, depth + 1)
+
+
+def phi_defs(body, operand, depth=0):
+    """Follow an operand back through single definitions (uses, borrows, transparent calls) to the first local that
+    has several whole-value definitions; -> [(def_bb, operand_or_None)] of that local's definitions, or a single
+    [(bb, operand)] when the chain ends in one definition / a parameter (bb None)."""
+    o = operand
+    for _ in range(24):
+        if o.get("k") not in ("copy", "move"):
+            return [(None, o)]
+        l = o["place"]["l"]
+        if 1 <= l <= body.argc:
+            return [(None, o)]
+        proj = [e for e in o["place"]["p"] if e["k"] != "deref"]
+        if proj:
+            # a field of a locally built tuple / struct: continue with what was stored there
+            if proj[0]["k"] == "field" and len(proj) == 1:
+                d1 = mir.single_def(body, l)
+                if d1 is not None and d1[0] == "assign" and d1[4]["k"] == "aggregate":
+                    hit = [f["op"] for f in d1[4]["fields"] if f["name"] == proj[0]["name"]]
+                    if hit:
+                        o = hit[0]
+                        continue
+            return [(None, o)]
+        ds = [d for d in body.defs().get(l, []) if not d[3]["p"]]
+        if len(ds) != 1:
+            out = []
+            for dk, dbb, di, dpl, payload in ds:
+                if dk == "assign" and payload["k"] in ("use", "cast"):
+                    out.append((dbb, payload["op"]))
+                elif dk == "assign" and payload["k"] in ("ref", "copyforderef"):
+                    out.append((dbb, {"k": "copy", "place": payload["place"]}))
+                else:
+                    out.append((dbb, None))
+            return out
+        dk, dbb, di, dpl, payload = ds[0]
+        if dk == "call":
+            t = payload
+            if callee_names(t) & mir._transparent() and t["args"]:
+                o = t["args"][0]
+                continue
+            return [(dbb, o)]
+        if payload["k"] in ("use", "cast"):
+            o = payload["op"]
+        elif payload["k"] in ("ref", "copyforderef"):
+            if payload["place"]["p"] and not all(e["k"] == "deref" for e in payload["place"]["p"]):
+                return [(dbb, {"k": "copy", "place": payload["place"]})]
+            o = {"k": "copy", "place": {"l": payload["place"]["l"], "p": []}}
+        else:
+            return [(dbb, o)]
+    return [(None, o)]
